@@ -15,6 +15,8 @@ import numpy as np
 from vf import tlc as tlcmod
 from vf.core import quiet
 
+from props import C32_chain
+
 
 def rv(v):
     return v[0] / v[1]
@@ -254,6 +256,7 @@ def run(ctx):
             ctx.violation(dict(kind="acceptance"), msg, replay=dict(what="acceptance"))
         for msg in check_chain_ingredients(env):
             ctx.violation(dict(kind="chain", which=msg.split("(")[0]), msg, replay=dict(what="chain"))
+        C32_chain.run_chain(ctx, env)
     ctx.traces += len(trajs) + 8
     ctx.sample(dict(trajectory={k: trajs[3][k] for k in ("pot", "eps", "im")}, uturn_tests_depth3=expected[3]))
     ctx.assume("'long chains reproduce the moments' is a statistical statement without finite-state content: it is NOT decided; the deterministic ingredients whose failure "
@@ -273,6 +276,16 @@ def replay(ctx, doc):
             msgs = check_acceptance(env)
         elif c.get("what") == "chain":
             msgs = check_chain_ingredients(env)
+        elif c.get("what") in ("chainseg", "chaintrace"):
+            sub = type(ctx)(ctx.pid, "quick", ctx.seed)
+            sub.quiet = True
+            base = C32_chain.plain(env, c["kind"], (sum(c["cuts"]),), c["seed"])
+            got = C32_chain.plain(env, c["kind"], tuple(c["cuts"]), c["seed"])
+            msgs = [] if np.allclose(base[0], got[0], rtol=1e-10, atol=1e-12) else ["segmented run differs from the uncut run"]
+            tr, _ = C32_chain.record(env, c["kind"], tuple(c["cuts"]), c["seed"])
+            from vf import trace as tracemod
+            tv = tracemod.validate(ctx, "HmcChainTrace", [tr], cfg=C32_chain.TCFG, label="replay")
+            msgs += [cl for _, _, cl in tv.propfail]
         else:
             calls, ends, prop, depth, turning = tree_pairs(env, c["depth"], c["go_right"])
             msgs = [] if (not turning and depth == c["depth"]) else ["sub-tree reported as turning / incomplete"]
@@ -292,4 +305,6 @@ def selftest(ctx):
         good = check_traj(env, inst)
         inst["traj"][1]["p"][0][0] += 1
         bad = check_traj(env, inst)
-    return dict(ok=(good == [] and len(bad) > 0), mutation="one momentum of the expected trajectory changed")
+    with quiet():
+        st2 = C32_chain.selftest_chain(ctx, env)
+    return dict(ok=(good == [] and len(bad) > 0 and st2["ok"]), mutation="one momentum of the expected trajectory changed; " + st2["mutation"])
